@@ -179,6 +179,8 @@ type persistChecker struct {
 	plan          *Plan
 	mu            sync.Mutex
 	saves         int // "created" callbacks seen
+	watch         *fsWatch
+	fsEvents      []fsEvent
 	stageNo       int
 	saved         map[int]dbSnap // last completed save per database
 	finished      map[int]dbSnap // completed, not yet superseded
@@ -223,6 +225,7 @@ func dbIndexOfPath(path string) int {
 
 // install hooks the snapshot stage callback of the engine.
 func (c *persistChecker) install(w *World) {
+	c.watch = newFsWatch(w.dir)
 	w.stagesMu.Lock()
 	defer w.stagesMu.Unlock()
 	w.stagesHook = func(stage, path string) {
@@ -363,6 +366,13 @@ func (c *persistChecker) OnReply(w *World, op *Op) *Violation {
 
 // saveCompleted is called by the engine hook wrapper when a save of db finished.
 func (c *persistChecker) Final(w *World) *Violation {
+	// the file protocol, whatever the class: an existing snapshot is only ever
+	// replaced by a rename onto its name
+	c.fsEvents = append(c.fsEvents, c.watch.drain()...)
+	c.watch.close()
+	if msg := snapshotProtocolViolation(c.fsEvents); msg != "" {
+		return &Violation{Oracle: "crash-window", Step: w.step, Fp: "crash:snapshot-removed-during-save", Msg: msg}
+	}
 	if c.plan.Class != "crash" {
 		return nil
 	}
